@@ -1,6 +1,7 @@
 #!/bin/bash
 # tools/seed_import.sh <name e.g. C07-r2> <src dir with patch.diff demo.py notes.md> "<needs to manifest>"
 NAME=$1; SRC=$2; NEEDS=$3
+[ -z "$NEEDS" ] && NEEDS=$(grep -m1 "^NEEDS:" $SRC/notes.md | sed "s/^NEEDS: *//")
 D=/verif/seeded/$NAME; mkdir -p $D
 cp $SRC/patch.diff $SRC/demo.py $D/; [ -f $SRC/notes.md ] && cp $SRC/notes.md $D/
 /venv/bin/python - "$NAME" "$NEEDS" <<'PY'
